@@ -9,6 +9,9 @@ import (
 // genCtx holds what the generators share: the size bound and a pool of primes (found
 // with math/big, so every modulus built from it has a factorisation the harness knows).
 type genCtx struct {
+	// tight: every operand of the current case is announced exactly at its true bit length
+	// (as NewIntFromBig(x, x.BitLen()) / num.Z().FromBig do); set per case for a fixed 30 % share
+	tight   bool
 	maxBits int
 	tier    string
 	primes  map[int][]*big.Int // bit size -> primes
@@ -126,6 +129,9 @@ func (g *genCtx) sval(r *vh.Rng) *big.Int {
 // equal, limb-rounded, above, or below (truncating).
 func (g *genCtx) capFor(r *vh.Rng, v *big.Int) int {
 	tl := v.BitLen()
+	if g.tight {
+		return tl
+	}
 	switch r.Intn(20) {
 	case 0, 1, 2, 3, 4, 5:
 		return tl
@@ -154,6 +160,9 @@ func (g *genCtx) capFor(r *vh.Rng, v *big.Int) int {
 // capOK returns an announced length that does not truncate v.
 func (g *genCtx) capOK(r *vh.Rng, v *big.Int) int {
 	tl := v.BitLen()
+	if g.tight {
+		return tl
+	}
 	switch r.Intn(6) {
 	case 0, 1:
 		return tl
@@ -386,4 +395,109 @@ func maxi(a, b int) int {
 		return a
 	}
 	return b
+}
+
+// ---- boundary family for division / quotient style operations -------------------------------
+//
+// Numerators of magnitude 2^k-1, 2^k, 2^k+1 (k around the limb boundaries 1..130 and random up to
+// the tier's size) or built as |d|*(2^j+e)+rem so that the quotient hits 2^j and 2^j +- 1 exactly,
+// both signs, divisors +-2^s, +-(2^s +- 1), small odd numbers; operands announced exactly at their
+// true length (mostly) or one bit above/below.  The quotient of such a pair needs every bit of the
+// quotient bound "announced(n) - bitlen(d) + 2" (e.g. -255 [8 bits] / 2 = -128 rounds away from zero).
+
+func (g *genCtx) boundaryK(r *vh.Rng, limit int) int {
+	if limit < 2 {
+		limit = 2
+	}
+	var k int
+	switch r.Intn(6) {
+	case 0, 1, 2:
+		k = 1 + r.Intn(130)
+	case 3:
+		k = vh.Pick(r, []int{1, 2, 7, 8, 9, 31, 32, 33, 63, 64, 65, 127, 128, 129})
+	default:
+		k = 1 + r.Intn(limit)
+	}
+	if k > limit {
+		k = limit
+	}
+	return k
+}
+
+func pow2pm(r *vh.Rng, k int) *big.Int {
+	x := new(big.Int).Lsh(one, uint(k))
+	switch r.Intn(3) {
+	case 0:
+		x.Sub(x, one)
+	case 1:
+		x.Add(x, one)
+	}
+	return x
+}
+
+// tightCap: announced length at the true length (70 %), one above (20 %), one below (10 %, truncating).
+func tightCap(r *vh.Rng, v *big.Int) int {
+	tl := v.BitLen()
+	switch k := r.Intn(10); {
+	case k < 7:
+		return tl
+	case k < 9:
+		return tl + 1
+	default:
+		if tl == 0 {
+			return 0
+		}
+		return tl - 1
+	}
+}
+
+// divBoundary returns a (numerator, divisor) pair of the boundary family; signed says whether
+// negative values are allowed; limit bounds the bit size (the bit-serial division is slow).
+func (g *genCtx) divBoundary(r *vh.Rng, signed bool, limit int) (x, y *big.Int) {
+	if limit > g.maxBits {
+		limit = g.maxBits
+	}
+	k := g.boundaryK(r, limit)
+	// divisor
+	s := vh.Pick(r, []int{0, 1, 1, 2, k / 2, k - 1, k, r.Intn(k + 1)})
+	if s < 0 {
+		s = 0
+	}
+	switch r.Intn(8) {
+	case 0, 1, 2:
+		y = new(big.Int).Lsh(one, uint(s))
+	case 3, 4:
+		y = pow2pm(r, s)
+	case 5:
+		y = big.NewInt(int64(vh.Pick(r, []int{1, 3, 5, 7, 9, 17, 34, 255, 257})))
+	default:
+		y = new(big.Int).Lsh(one, uint(s))
+		y.Add(y, big.NewInt(int64(r.Intn(4))))
+	}
+	if y.Sign() == 0 {
+		y = big.NewInt(1)
+	}
+	// numerator
+	if r.Intn(2) == 0 {
+		x = pow2pm(r, k)
+	} else { // quotient exactly 2^j + e, remainder 0 / 1 / |d|-1
+		j := r.Intn(k + 1)
+		q := pow2pm(r, j)
+		x = new(big.Int).Mul(y, q)
+		switch r.Intn(3) {
+		case 0:
+			x.Add(x, one)
+		case 1:
+			x.Add(x, new(big.Int).Sub(y, one))
+		}
+	}
+	if signed {
+		if r.Intn(3) != 0 { // mostly negative numerators: the rounding-away-from-zero side
+			x.Neg(x)
+		}
+		if r.Intn(3) == 0 {
+			y.Neg(y)
+		}
+	}
+	return x, y
 }
